@@ -4,6 +4,7 @@ import (
 	"context"
 	"encoding/json"
 	"fmt"
+	"os"
 	"reflect"
 	"sort"
 	"strings"
@@ -187,6 +188,15 @@ func RunLockstep(c *Case, pick func(n int) int, hk *Hooks) *Outcome {
 	m := model.New(prog.G, c.Vars)
 
 	fail := func(sym, detail string, gs []quiesce.G) *Outcome {
+		if os.Getenv("VERIF_DEBUG") != "" && (sym == "missing-request" || sym == "extra-request") {
+			all := quiesce.Dump(quiesce.All())
+			time.Sleep(150 * time.Millisecond)
+			var later []string
+			for _, tt := range in.NewTasks() {
+				later = append(later, elemID(tt.GetActivity().Element()))
+			}
+			fmt.Fprintf(os.Stderr, "VERIF-DEBUG %s %s\nlater tasks: %v\nVERDICT-SNAPSHOT(mine):\n%s\nSNAPSHOT(all goroutines just after the verdict):\n%s\n", sym, detail, later, quiesce.Dump(gs), all)
+		}
 		out.Symptom, out.Detail = sym, detail
 		out.Traces = DescribeAll(in.Traces())
 		if gs != nil {
